@@ -33,6 +33,12 @@ def make_layout(spec):
     base = eng.parse(' '.join(lexemes))
     assert base[0] == 'ok', (gtext, lexemes, base)
     base_ast = norm(base[1])
+    if spec.get('input') == 'Buffer':
+        # the legacy input class: a Buffer object made by the caller carries its own configuration (the comment patterns are given to it)
+        from tatsu.input.buffer import Buffer
+        bsettings = {'comments': '\\(\\*.*?\\*\\)', 'eol_comments': '#[^\\n]*'} if spec['template'] == 'comments' else {}
+        real_parse = eng.parse
+        eng = type('BufferEngine', (), {'parse': staticmethod(lambda t: real_parse(Buffer(t, **bsettings)))})()
 
     def build(args):
         i = 0
@@ -298,6 +304,18 @@ def plan(tier, seed):
             obs.append(Ob(name=f'A_comments_{nm}', factory='vt.props.c09:make_layout', spec={'template': 'comments', 'runs': runs, 'comments': True, 'sel_runs': sel_runs, 'program': 'comments'},
                           params=[(f'w{i}', 0, UNI) for i in range(sum(runs))] + [('s0', first, first + 1), ('s1', 0, len(COMMENT_RUNS))],
                           budget=300 if tier == 'quick' else 1500, group='A', require_tags=('ok',)))
+    # the same invariance through the legacy Buffer input class (BufferCursor.next_token / eat_whitespace / eat_comments)
+    for tpl, runs in ((('tokens_rule_eof', [0, 1, 1, 0]), ('closure_join', [1, 1, 0, 0])) if tier == 'quick' else
+                      (('tokens_rule_eof', [0, 1, 1, 0]), ('tokens_rule_eof', [1, 2, 1, 1]), ('closure_join', [1, 1, 1, 1]), ('void_opt', [0, 1, 1, 1]), ('upper_rule_token', [0, 1, 1, 0]))):
+        nm = ''.join(map(str, runs))
+        obs.append(Ob(name=f'A_buffer_{tpl}_{nm}', factory='vt.props.c09:make_layout', spec={'template': tpl, 'runs': runs, 'program': tpl, 'input': 'Buffer'},
+                      params=[(f'w{i}', 0, UNI) for i in range(sum(runs))], budget=(300 if tier == 'quick' else 1500), group='A-buffer', require_tags=('ok',)))
+    for first in ((1, 3) if tier == 'quick' else range(1, len(COMMENT_RUNS))):
+        runs, sel_runs = [0, 1, 1, 0], [1, 2]
+        nm = ''.join(map(str, runs)) + f'_c{first}'
+        obs.append(Ob(name=f'A_buffer_comments_{nm}', factory='vt.props.c09:make_layout', spec={'template': 'comments', 'runs': runs, 'comments': True, 'sel_runs': sel_runs, 'program': 'comments', 'input': 'Buffer'},
+                      params=[(f'w{i}', 0, UNI) for i in range(sum(runs))] + [('s0', first, first + 1), ('s1', 0, len(COMMENT_RUNS))],
+                      budget=300 if tier == 'quick' else 1500, group='A-buffer', require_tags=('ok',)))
     for kind in ('pattern', 'upper_rule', 'lower_rule'):
         for n in (1, 2):
             obs.append(Ob(name=f'A_noskip_{kind}_{n}', factory='vt.props.c09:make_noskip', spec={'kind': kind, 'n': n, 'program': kind}, params=[(f'w{i}', 0, UNI) for i in range(n)],
@@ -353,11 +371,11 @@ def plan(tier, seed):
                        'reference evaluator for every text. B2: the same text parsed under a SEQUENCE of configurations in one process (namechars given / not given, nameguard off / on, '
                        'ignorecase), each parse compared with the reference under its own configuration: a verdict cached from an earlier configuration must not leak. C: each configuration setting given at compile time, as a directive and at parse time (absent / value 1 / '
                        'value 2, solver-chosen selectors): the behaviour observed through probe texts is that of the highest-priority layer present.',
-        'functions_encoded': ['tatsu.input.textlines:TextLinesCursor.next_token/eat_whitespace/eat_comments/eat_eol_comments/match/is_name_char/is_name', 'tatsu.contexts.core:ParserCore.next_token',
+        'functions_encoded': ['tatsu.input.buffer:BufferCursor.next_token/eat_whitespace/eat_comments/eat_eol_comments (layouts through a caller-made Buffer)', 'tatsu.input.textlines:TextLinesCursor.next_token/eat_whitespace/eat_comments/eat_eol_comments/match/is_name_char/is_name', 'tatsu.contexts.core:ParserCore.next_token',
                               'tatsu.contexts.context:ParseContext.token/pattern/constant/eofcheck/void', 'tatsu.contexts.engine:ParserEngine.call/rule_call (whitespace on rule entry)',
                               'tatsu.config:ParserConfig.__post_init__', 'tatsu.util.configs:Config.override/hard_override/merge', 'tatsu.peg.base:Grammar.__init__/new_parse_config', 'tatsu.api.api:compile'],
         'bounds': f'A: {sum(len(v) for v in layouts.values())} layouts of 5 templates with runs of 0-2 symbolic whitespace code points, comment selectors over {len(COMMENT_RUNS)} comment shapes; '
                   f'B: 3 grammars x 12 settings, text length 2..{maxn} over all Unicode; C: 7 settings x 27 layer combinations',
-        'outside': 'longer runs; whitespace given as a compiled regex object; comments nested in comments; the legacy Buffer input for part A',
+        'outside': 'longer runs; whitespace given as a compiled regex object; comments nested in comments; the legacy Buffer input only for a subset of the part A layouts',
         'assumptions': ['"whitespace" for part A means str.isspace() code points (the default whitespace regex \\\\s+)'],
     }
